@@ -19,6 +19,9 @@ import (
 
 const c12Watchdog = 8 * time.Second
 
+// c12Crowd: number of Sends in flight at once in the "crowd" scenarios
+const c12Crowd = 200
+
 // c12Progress counts the re-entrant sends of the scenario that is running (nil outside gated scenarios).
 var c12Progress func() int64
 
@@ -31,6 +34,7 @@ type reentry struct {
 	parked     *int32
 	label      string
 	sameType   bool
+	self       eventlogger.Node // the node the callbacks run in (writer kind "regself" registers it again under its id)
 }
 
 var writerCtr int64
@@ -51,11 +55,17 @@ func (re *reentry) enter(ctx context.Context) {
 			frame = "eventlogger.(*Broker).Re" // RegisterPipeline or RemovePipeline
 		case "reopen":
 			frame = "eventlogger.(*Broker).Reopen"
+		case "regself":
+			frame = "eventlogger.(*Broker).RegisterNode"
 		}
 		go func() {
 			defer re.writers.Done()
 			defer close(done)
 			switch re.writerKind {
+			case "regself":
+				// the node that is in the middle of a callback is registered again (same object, same id)
+				re.b.RegisterNode("x", re.self)
+				return
 			case "reopen":
 				// not a writer of the registry, but a Broker operation that may want to wait for what is in flight
 				re.b.Reopen(context.Background())
@@ -211,6 +221,31 @@ func underWatchdog(run *rt.Run, sc c12Scenario, what string, frame string, f fun
 			b, _ := strconv.Atoi(gs[j].ID)
 			return a < b
 		})
+		if sc.Op == "crowd" {
+			// the calls run on goroutines of their own: all of them that are still inside Send must be parked
+			n, parked, raw, lib := 0, true, "", ""
+			for _, g := range gs {
+				if g.State == "running" || !g.Has(frame) {
+					continue
+				}
+				n++
+				parked = parked && g.Parked()
+				if raw == "" {
+					raw = g.Raw
+					for _, fr := range g.Frames {
+						if strings.Contains(fr, "hashicorp/eventlogger") {
+							lib = fr[strings.LastIndex(fr, "/")+1:]
+							break
+						}
+					}
+					lib = g.State + "@" + lib
+				}
+			}
+			if n == 0 {
+				return "", false, ""
+			}
+			return fmt.Sprintf("%s (%d Send calls have not returned, every one parked: %v)", lib, n, parked), parked, raw
+		}
 		for _, g := range gs {
 			if g.State == "running" {
 				continue // the goroutine taking this dump (it is inside underWatchdog, too)
@@ -318,8 +353,26 @@ func runC12Scenario(run *rt.Run, sc c12Scenario) {
 	gatedMode := strings.HasPrefix(sc.Callback, "gated")
 	if gatedMode {
 		must(b.RegisterNode("x", gf))
+		re.self = gf
 	} else {
 		must(b.RegisterNode("x", x))
+		re.self = x
+	}
+	var crowdInside int64
+	if sc.Op == "crowd" {
+		// every outer Send waits inside the node until the whole crowd is inside (or 100 ms have passed), then all
+		// of them re-enter at once: a Broker that rations what is in flight must not let the nested Sends starve
+		x.OnProcess = func(ctx context.Context, n *RecNode, e *eventlogger.Event, ent *Entry) {
+			tok, ok := e.Payload.(*Tok)
+			if !ok || tok.S != "outer" {
+				return
+			}
+			atomic.AddInt64(&crowdInside, 1)
+			for t0 := time.Now(); atomic.LoadInt64(&crowdInside) < c12Crowd && time.Since(t0) < 100*time.Millisecond; {
+				time.Sleep(200 * time.Microsecond)
+			}
+			re.enter(ctx)
+		}
 	}
 	must(b.RegisterNode("m", NewRecNode(log, "m", eventlogger.NodeTypeFormatter, 1, fixedBeh(Pass))))
 	kNode := NewRecNode(log, "k", eventlogger.NodeTypeSink, 1, fixedBeh(Drop))
@@ -354,6 +407,18 @@ func runC12Scenario(run *rt.Run, sc c12Scenario) {
 				}
 			}
 			b.Send(ctx, "to", p)
+		})
+	case "crowd":
+		ok = underWatchdog(run, sc, fmt.Sprintf("%d concurrent Sends through a node that sends again", c12Crowd), "eventlogger.(*Broker).Send", func() {
+			var wg sync.WaitGroup
+			for i := 0; i < c12Crowd; i++ {
+				wg.Add(1)
+				go func() {
+					defer wg.Done()
+					b.Send(ctx, "to", &Tok{S: "outer"})
+				}()
+			}
+			wg.Wait()
 		})
 	case "reopen":
 		ok = underWatchdog(run, sc, "Reopen", "eventlogger.(*Broker).Reopen", func() { b.Reopen(ctx) })
@@ -522,6 +587,13 @@ func TestC12(t *testing.T) {
 	// a node that re-enters Send with the event type of the Send it runs in
 	for _, wk := range []string{"-", "", "setthr", "pipe", "reopen"} {
 		scs = append(scs, c12Scenario{Op: "send", Callback: "process", Writer: wk != "-", WKind: strings.TrimPrefix(wk, "-"), SameType: true})
+	}
+	// many Sends in flight at once, each of which sends again from its node
+	scs = append(scs, c12Scenario{Op: "crowd", Callback: "process"}, c12Scenario{Op: "crowd", Callback: "process", SameType: true})
+	// the node that is in the middle of a callback is registered again
+	scs = append(scs, c12Scenario{Op: "send", Callback: "process", Writer: true, WKind: "regself"})
+	for p := 1; p <= 3; p++ {
+		scs = append(scs, c12Scenario{Op: "send", Callback: "gated-expire", Writer: true, WKind: "regself", Pending: p})
 	}
 	// an application's Gateable whose composite is itself a Gateable flush event for the filter's own pipeline
 	for _, w := range []bool{false, true} {
